@@ -43,6 +43,13 @@ THOROUGH_S = 600
 VARIANTS = {"RoundRobinArbiter": False, "RoundRobinArbiterEn": True}
 NMIN, NMAX = 2, 8
 
+
+
+class _BudgetGone(BaseException):
+  """raised inside the Hypothesis test once the wall budget is used up; not an Exception, so
+  Hypothesis neither treats it as a failure nor keeps generating the remaining examples"""
+
+
 _env = {}
 
 
@@ -276,12 +283,15 @@ def run_shard(ctx):
   @given(cases())
   def t(case):
     if ctx.out_of_time():
-      return
+      raise _BudgetGone()       # BaseException: leaves Hypothesis at once, no shrinking, no tail
     one(ctx, case)
     if ctx.evaluations % 97 == 0:
       ctx.sample(case)
 
-  ctx.run(t, "c19")
+  try:
+    ctx.run(t, "c19")
+  except _BudgetGone:
+    pass                        # recorded by ctx.out_of_time() as budget_exhausted
 
 
 def extra_coverage(merged):
